@@ -27,6 +27,7 @@ let dir_opt = function
 type pop =
   | PNew of int | PNewData of int * e list | PAdd of e | PPop | PRemove of int | PX of int
   | PPeek of int | PFront | PSet of e list | PReorder of int | PClear | PLen | PIsEmpty | PEach of int
+  | PUpdate of bool
   | PBad
 
 let parse_op (s : string) : pop =
@@ -50,6 +51,7 @@ let parse_op (s : string) : pop =
   | 'l' -> noarg PLen
   | 'e' -> noarg PIsEmpty
   | 'E' -> (match int_opt arg with Some k when k >= 0 -> PEach k | _ -> PBad)
+  | 'U' -> (match arg with "0" -> PUpdate false | "1" -> PUpdate true | _ -> PBad)
   | _ -> PBad
 
 let cut_kind inp =
@@ -78,10 +80,15 @@ let eval_with (v : M.variant) (inp : string) : string =
     let pos : (int, int) Hashtbl.t = Hashtbl.create 16 in
     let outs = ref [] in
     let stop = ref false in
+    let rep = ref true in                      (* is an update function installed? *)
     List.iter (fun s ->
       if not !stop then begin
-        let mop = match parse_op s with
-          | PBad -> None
+        (match parse_op s with PNew _ | PNewData _ -> rep := true | _ -> ());
+        match parse_op s with
+        | PUpdate b -> rep := b; outs := ("u@#" ^ es_str (List.map em (M.q_data !q))) :: !outs
+        | pop_ ->
+        let mop = match pop_ with
+          | PBad | PUpdate _ -> None
           | PNew d -> Some (M.ONew (M.ccmp (z_of_int d)))
           | PNewData (d, l) -> Some (M.ONewWithData (M.ccmp (z_of_int d), List.map me l))
           | PAdd x -> Some (M.OAdd (me x))
@@ -104,7 +111,7 @@ let eval_with (v : M.variant) (inp : string) : string =
            | M.OutOfFuel -> outs := "FUEL" :: !outs; stop := true
            | M.Ok (q', (r, mv)) ->
              q := q';
-             let mv = List.map (fun (x, i) -> (em x, int_of_z i)) mv in
+             let mv = if !rep then List.map (fun (x, i) -> (em x, int_of_z i)) mv else [] in
              List.iter (fun ((_, p), i) -> Hashtbl.replace pos p i) mv;
              let res = match r with
                | M.RIdx i -> "i" ^ string_of_int (int_of_z i)
@@ -182,7 +189,7 @@ let check_history (prop : string) (rest : string) (out : string) : unit =
   let c05 = (prop <> "C06") and c06 = (prop = "C06") in
   let ops = String.split_on_char ';' rest in
   let outs = if out = "" then [] else String.split_on_char ';' out in
-  let held = ref [] and desc = ref 0 and prev = ref [] in
+  let held = ref [] and desc = ref 0 and prev = ref [] and inst = ref true in
   taint_f1 := false; taint_f2 := false;
   let pos : (int, int) Hashtbl.t = Hashtbl.create 16 in
   let tracked : (int, unit) Hashtbl.t = Hashtbl.create 16 in
@@ -212,6 +219,8 @@ let check_history (prop : string) (rest : string) (out : string) : unit =
         if String.length res >= 1 && res.[0] = 'v' then
           (match elem_opt (String.sub res 1 (String.length res - 1)) with Some x -> x | None -> failf "op#%d: result %s" n res)
         else failf "op#%d: result %s where a value was expected" n res in
+      if not !inst && (match p with PNew _ | PNewData _ -> false | _ -> true) && mv <> [] then
+        failf "op#%d: the update function was called although it had been removed" n;
       (* triggers, from the layout before the op *)
       (match p with
        | PAdd x ->
@@ -227,12 +236,16 @@ let check_history (prop : string) (rest : string) (out : string) : unit =
        | _ -> ());
       (match p with
        | PNew d -> if res <> "u" then failf "op#%d New: result %s" n res;
-         held := []; desc := d; Hashtbl.reset tracked
+         held := []; desc := d; Hashtbl.reset tracked; inst := true
        | PNewData (d, l) -> if res <> "u" then failf "op#%d NewWithData: result %s" n res;
-         held := l; desc := d; Hashtbl.reset tracked
+         held := l; desc := d; Hashtbl.reset tracked; inst := true
+       | PUpdate b -> if res <> "u" then failf "op#%d Update: result %s" n res;
+         (* while no function is installed nothing is tracked; tracking starts again with the
+            elements that enter after Update(f) *)
+         inst := b; if not b then Hashtbl.reset tracked
        | PAdd x ->
          held := x :: !held;
-         Hashtbl.replace tracked (snd x) ();
+         if !inst then Hashtbl.replace tracked (snd x) ();
          List.iter (fun ((_, pl), i) -> Hashtbl.replace pos pl i) mv;
          let idx = (if String.length res >= 2 && res.[0] = 'i' then int_opt (String.sub res 1 (String.length res - 1)) else None) in
          (match idx with
@@ -240,7 +253,7 @@ let check_history (prop : string) (rest : string) (out : string) : unit =
           | Some i ->
             if i < 0 || i >= List.length lay then failf "op#%d Add returned index %d outside the queue" n i;
             if List.nth lay i <> x then failf "op#%d Add returned index %d but Peek finds %s there" n i (e_str (List.nth lay i));
-            if c06 && Hashtbl.find_opt pos (snd x) <> Some i then
+            if c06 && !inst && Hashtbl.find_opt pos (snd x) <> Some i then
               failf "op#%d Add returned index %d but the last reported position of the new element is %s" n i
                 (match Hashtbl.find_opt pos (snd x) with Some j -> string_of_int j | None -> "none"))
        | PPop ->
@@ -284,7 +297,7 @@ let check_history (prop : string) (rest : string) (out : string) : unit =
            end
          end
        | PSet l -> if res <> "u" then failf "op#%d Set: result %s" n res;
-         held := l; Hashtbl.reset tracked; List.iter (fun (_, pl) -> Hashtbl.replace tracked pl ()) l
+         held := l; Hashtbl.reset tracked; if !inst then List.iter (fun (_, pl) -> Hashtbl.replace tracked pl ()) l
        | PReorder d -> if res <> "u" then failf "op#%d Reorder: result %s" n res; desc := d
        | PClear -> if res <> "u" then failf "op#%d Clear: result %s" n res; held := []; Hashtbl.reset tracked
        | PLen -> if res <> "n" ^ string_of_int (List.length !held) then failf "op#%d Len returned %s with %d elements held" n res (List.length !held)
